@@ -228,31 +228,37 @@ def semiOf (action : KV) : Option Nat :=
   | some (.int i) => some i.toNat
   | _ => none
 
+/-- `_comment_between_first_and_last` (multiline_structure.py, after commits c6e66e8 and 8e6c5bb):
+    a `parser.comment` or `parser.preprocessor` instance in `lTokens[1:-1]` -/
+def keepGuard (l : List Tok) : Bool :=
+  ((l.drop 1).dropLast).any (fun t => isCommentInst t || t.kind == .preproc)
+
 /-- one fix function of multiline_structure.py; an action string the function does not test for
-    leaves the tokens alone (no `set_tokens`) -/
+    leaves the tokens alone (no `set_tokens`); the five "remove" branches return early (no
+    `set_tokens` either) when a comment or preprocessor line sits between the first and the last token -/
 def fixMSFn (c : Cls) (isa : Nat → Nat → Bool) (f : MSFn) (act : Val) (semi : Option Nat) (l : List Tok) :
     Except PyErr (List Tok) :=
   match f with
   | .firstParen =>
     if valIs act "insert" then breakBefore c l
-    else if valIs act "remove" then firstWsLast c l
+    else if valIs act "remove" then (if keepGuard l then .ok l else firstWsLast c l)
     else .ok l
   | .lastParen =>
     if valIs act "insert" then breakAfterFirst c l
-    else if valIs act "remove" then firstLast l
+    else if valIs act "remove" then (if keepGuard l then .ok l else firstLast l)
     else if valIs act "insert_and_move_comment" then moveComment c isa semi l
     else .ok l
   | .openParen =>
     if valIs act "insert" then breakAtEnd c l
-    else if valIs act "remove" then firstLast l
+    else if valIs act "remove" then (if keepGuard l then .ok l else firstLast l)
     else .ok l
   | .closeParen =>
     if valIs act "insert" then breakAfterFirst c l
-    else if valIs act "remove" then firstLast l
+    else if valIs act "remove" then (if keepGuard l then .ok l else firstLast l)
     else .ok l
   | .comma =>
     if valIs act "insert" then breakAfterComma c l
-    else if valIs act "remove" then firstWsLast c l
+    else if valIs act "remove" then (if keepGuard l then .ok l else firstWsLast c l)
     else .ok l
   | .assign =>
     if valIs act "remove" then .ok (joinAssign l) else .ok l
